@@ -18,6 +18,17 @@
 #define VP_ERRMODE 1 /* 0 parent, 1 own pipe, 2 stdout */
 #endif
 #define NLOG 8
+#if VP_IO
+#define N_OUT vp_c_n_out[0]
+#define N_ERR vp_c_n_err[0]
+#define SENT_OUT(i) vp_c_sent_out[i]
+#define SENT_ERR(i) vp_c_sent_err[i]
+#else /* silent child: streams only close (when it exits) */
+#define N_OUT 0
+#define N_ERR 0
+#define SENT_OUT(i) 0
+#define SENT_ERR(i) 0
+#endif
 
 static const char *const argv_plain[] = { "p", NULL };
 
@@ -62,8 +73,10 @@ static int sink(int which, REPROC_STREAM stream, const uint8_t *buffer, size_t s
     /* first sink call of reproc_run_ex: the child has been started by now */
     roles_done = true;
     vp_exec_done();
+#if VP_IO
     vp_child_roles(0, pick_parent_end(0, true), pick_parent_end(0, false),
                    g_errmode == 1 ? pick_parent_end(1, false) : -1, g_errmode == 2, VP_S);
+#endif
   }
 #endif
   int idx = ncalls;
@@ -111,7 +124,7 @@ static void check_log(int r, bool drained_to_end)
       }
       for (size_t k = 0; k < 2; k++) {
         if (k < c->size) {
-          order = order && got_out + (int) k < vp_c_n_out[0] && c->b[k] == vp_c_sent_out[got_out + k];
+          order = order && got_out + (int) k < N_OUT && c->b[k] == SENT_OUT(got_out + k);
         }
       }
       got_out += (int) c->size;
@@ -121,7 +134,7 @@ static void check_log(int r, bool drained_to_end)
       }
       for (size_t k = 0; k < 2; k++) {
         if (k < c->size) {
-          order = order && got_err + (int) k < vp_c_n_err[0] && c->b[k] == vp_c_sent_err[got_err + k];
+          order = order && got_err + (int) k < N_ERR && c->b[k] == SENT_ERR(got_err + k);
         }
       }
       got_err += (int) c->size;
@@ -135,7 +148,7 @@ static void check_log(int r, bool drained_to_end)
     VP_ASSERT(C16, VP_MODE == 1 ? (fail_val < 0 ? r == fail_val : true) : r == fail_val,
               "the non-zero sink result is not what drain returns");
   } else if (drained_to_end) {
-    VP_ASSERT(C16, got_out == vp_c_n_out[0] && (g_errmode != 1 || got_err == vp_c_n_err[0]),
+    VP_ASSERT(C16, got_out == N_OUT && (g_errmode != 1 || got_err == N_ERR),
               "drain reports completion although output of the child was not delivered");
     VP_ASSERT(C16, zero_out == 1 && (g_errmode != 1 || zero_err == 1),
               "drain reports completion without telling each sink once that its stream closed");
@@ -162,7 +175,9 @@ void harness(void)
   int r0 = reproc_start(p, argv_plain, o);
   VP_ASSUME(r0 > 0);
   vp_exec_done();
+#if VP_IO
   vp_child_roles(0, p->pipe.in, p->pipe.out, p->pipe.err, g_errmode == 2, VP_S);
+#endif
   vp_hang_allowed = o.deadline == 0; /* without deadline a silent child may keep drain waiting */
   int r = reproc_drain(p, so, se);
   VP_ASSERT(C16, ncalls <= NLOG, "more sink calls than the log holds");
@@ -211,17 +226,22 @@ void harness(void)
               "run returns while its child is still unreaped although nothing failed");
     VP_ASSERT(C16, r < 0 || vp_nchild == 0 || (vp_c_state[0] == VP_C_REAPED && r == vp_status_decode(vp_child_status(0))),
               "run returns something other than the child's exit status");
-    VP_ASSERT(C16, r >= 0 || vp_faults_left < f0 || (fail_at >= 0 && fail_at < ncalls) || r == REPROC_ETIMEDOUT,
+    bool child_failed = vp_nchild > 0 && vp_c_start_errno[0] > 0; /* e.g. the program does not exist */
+    VP_ASSERT(C16, r >= 0 || vp_faults_left < f0 || child_failed || (fail_at >= 0 && fail_at < ncalls) ||
+                       r == REPROC_ETIMEDOUT,
               "run fails although nothing failed");
+    VP_ASSERT(C16, !child_failed || r == -vp_c_start_errno[0], "run does not return the error the child reported");
     if (api == 0) {
       check_log(r, r >= 0 && vp_faults_left == f0);
     } else {
       /* reproc_run: 'parent' exactly when none of discard / file / path is set */
-      VP_ASSERT(C16, r < 0 || vp_faults_left < f0 || (sh == 0) == (vp_calls_open == 0 && vp_calls_pipe == 2),
+      /* with the parent's streams nothing is opened and only the exit pipe and the two error
+       * pipes are created */
+      VP_ASSERT(C16, r < 0 || vp_faults_left < f0 || (sh == 0) == (vp_calls_open == 0 && vp_calls_pipe == 3),
                 "run does not default to the parent's streams exactly when no discard/file/path is given");
     }
   }
-  VP_COVER(api == 0 && r >= 0 && ncalls >= 4, "run_ex drains and returns the exit status");
+  VP_COVER(api == 0 && r >= 0 && ncalls >= 3, "run_ex drains and returns the exit status");
   VP_COVER(api == 2 && r >= 0 && sh == 0, "run with the parent's streams");
 #if VP_F > 0
   VP_COVER(api == 0 && r < 0 && vp_faults_left < f0, "run_ex with an injected failure");
